@@ -1,5 +1,6 @@
 --------------------------- MODULE Trace_SacAdmin ---------------------------
-(* Trace validation for SacAdmin.tla (conventions: see Trace_RoleTransfer). *)
+(* Trace validation for SacAdmin.tla (conventions: see Trace_RoleTransfer; `dead` stays FALSE: the ghost
+   state is re-based on the observation after every step, see GStep, so no part of a run is skipped). *)
 EXTENDS SacAdmin, TLC, Json, IOUtils
 Rec == ndJsonDeserialize(IOEnv.TRACE)
 VARIABLES l, g, dead, cnt
@@ -22,8 +23,8 @@ Next ==
      ELSE IF dead THEN UNCHANGED <<g, dead, cnt>>
      ELSE LET ev == Norm(raw)  f == Failing(g, ev) IN
           /\ \A m \in f : Report(ev, m)
-          /\ dead' = (f \ NonFatal # {})
-          /\ g' = GNext(g, ev)
+          /\ dead' = FALSE
+          /\ g' = GStep(g, ev)
           /\ cnt' = [m \in Monitors |-> cnt[m] + IF Ante(m, g, ev) THEN 1 ELSE 0]
   /\ (l = Len(Rec) => PrintT(<<"DONE", l, ToJson(cnt')>>))
 Spec == Init /\ [][Next]_vars
